@@ -190,7 +190,7 @@ def _targets(tier):
             check,
             strategy=lambda tier: cases(),
             budget={"quick": 6000, "thorough": 200000},
-            required=["nt:segwit-nonfinal-seq", "nt:trail-1byte-in-tx", "nt:trail-same-tx", "nt:in-block", "nt:block-dup-tx", "nt:trail-in-tx", "nt:coinbase-shaped-segwit", "nt:coinbase-shaped-legacy", "nt:after-related-tx", "nt:script>=253", "nt:wit-item>=253", "nt:wit-item-3000..65533", "nt:n_in>=253", "nt:script>=65536", "nt:tx-bytes>1000000"],
+            required=["nt:segwit-nonfinal-seq", "nt:trail-1byte-in-tx", "nt:trail-same-tx", "nt:in-block", "nt:block-dup-tx", "nt:trail-in-tx", "nt:coinbase-shaped-segwit", "nt:coinbase-shaped-legacy", "nt:after-related-tx", "nt:script>=253", "nt:wit-item>=253", "nt:wit-item-3000..65533", "nt:n_in>=253", "nt:script>=65536", "nt:tx-bytes>1000000", "nt:out-script-reads-as-address-or-key"],
         )
     ]
 
